@@ -1218,6 +1218,18 @@ def run_C13(tier, rng, stats):
             for P, tl, tr in [('2', '', ''), ('1', '', '+1'), ('(1)', '2*', ''), ('2', '(', ')')]:
                 if len(tl + P + '^' + r + tr) <= 256:
                     pairs.append((case(ev, 'eval', None, tl + P + sup + tr), case(ev, 'eval', None, tl + P + '^' + r + tr), 'superscript'))
+    # a signed right operand followed by ^ / a superscript: the sign binds tighter, x op -y^n = x op ((-y)^n); doubled and mixed signs too
+    for ev in EVS:
+        ys = ['2', '3'] + (['.5'] if ev != 'i64' else [])
+        for x in ['5', '1'] + (['1.5'] if ev != 'i64' else []):
+            for op in [o for o in gen.BINOPS[ev] if o != '^']:      # after ^ the next ^ is not absorbed (left associative): a different tree
+                for sg in ['-', '+', '--', '-+', '+-']:
+                    for y in ys:
+                        for sfx in ['^2', '^3', '²', '³', '^2^3']:
+                            a = x + op + sg + y + sfx
+                            b = x + op + '((' + sg + y + ')' + sfx + ')'
+                            pairs.append((case(ev, 'eval', None, a), case(ev, 'eval', None, b), 'signed operand before ^: the sign binds tighter'))
+                            pairs.append((case(ev, 'eval', None, 'abs(' + a + ')'), case(ev, 'eval', None, 'abs(' + b + ')'), 'signed operand before ^: the sign binds tighter'))
     # prefix + and redundant brackets up to exactly the 256-character bound
     for ev in EVS:
         for o in ['1', '@', '2+3']:
